@@ -672,6 +672,28 @@ def check_saved_state(ctx):
     subject = save.params[0]
     ctx.ob('saved-state', save, dumps[0], bool(dumps[0].args) and U(dumps[0].args[0]) == subject,
            'save must serialise the model object itself (all of its state); serialises `%s`' % (U(dumps[0].args[0]) if dumps[0].args else ''))
+    # the parameter / marginal vectors the model holds are CliqueVectors (a dict subclass): hooks there decide what of them is saved
+    CVF = 'src/mbi/clique_vector.py'
+    cvm = repo.methods(CVF, 'CliqueVector')
+    cv_hooks = [m for m in ('__getstate__', '__setstate__', '__reduce__', '__reduce_ex__', '__getnewargs__', '__copy__', '__deepcopy__') if m in cvm]
+    for hname in cv_hooks:
+        h = cvm[hname]
+        ctx.analysed(h)
+        if hname not in ('__reduce__', '__reduce_ex__'):
+            raise AnalysisError('CliqueVector customises copying / pickling through %s: not a recognised form' % hname)
+        rets = [r for r in ast.walk(h.node) if isinstance(r, ast.Return) and r.value is not None]
+        if len(rets) != 1 or not (isinstance(rets[0].value, ast.Tuple) and len(rets[0].value.elts) == 2 and U(rets[0].value.elts[0]) == 'CliqueVector'
+                                  and isinstance(rets[0].value.elts[1], ast.Tuple) and len(rets[0].value.elts[1].elts) == 1):
+            raise AnalysisError('CliqueVector.%s: not of the form `return (CliqueVector, (<mapping>,))`' % hname)
+        arg = U(rets[0].value.elts[1].elts[0]).replace(' ', '')
+        current = arg in ('dict(self)', 'dict(self.items())', '{k:self[k]forkinself}', '{cl:self[cl]forclinself}', 'dict(zip(self.keys(),self.values()))')
+        stale = arg in ('self.dictionary', 'dict(self.dictionary)', 'self.dictionary.copy()')
+        if not current and not stale:
+            raise AnalysisError('CliqueVector.%s rebuilds the vector from `%s`, which is in no recognised form' % (hname, arg))
+        ctx.ob('saved-state', h, rets[0], current,
+               'a saved (or copied) vector is rebuilt from its CURRENT entries; `%s`%s' % (U(rets[0].value.elts[1].elts[0]), '' if current else
+               ' is the mapping handed to the constructor: entries re-bound since (`model.potentials[cl] = ..`) are saved with their OLD tables, '
+               'the re-loaded model answers from another distribution'), construct='pickled content of a CliqueVector')
     if not hooks:
         ctx.ob('saved-state', load, loads[0], True, 'no custom pickling hooks on GraphicalModel: every attribute is saved and restored as it was')
         return
